@@ -1,0 +1,7 @@
+//go:build !verif
+
+package ro
+
+// verifToChannelPark is a named park point for verification harnesses (build tag `verif`).
+// Without the tag it is empty and inlined away.
+func verifToChannelPark() {}
